@@ -11,12 +11,14 @@ use h_store::*;
 use hcommon::*;
 
 #[derive(Clone, Debug)]
-struct M { tok: u64, long: u64, short: u64, bal_l: u64, bal_s: u64, min_l: u64, min_s: u64 }
+struct M { tok: u64, long: u64, short: u64, bal_l: u64, bal_s: u64, min_l: u64, min_s: u64, col_l: u64, col_s: u64 }
 
 fn parse_m(s: &str) -> Option<M> {
     let v: Vec<u64> = s.split(':').map(|x| x.parse().ok()).collect::<Option<_>>()?;
-    if v.len() != 7 { return None; }
-    Some(M { tok: v[0], long: v[1], short: v[2], bal_l: v[3], bal_s: v[4], min_l: v[5], min_s: v[6] })
+    if v.len() != 7 && v.len() != 9 { return None; }
+    // optional fields 8, 9: total position collateral held in the long / short token
+    let (col_l, col_s) = if v.len() == 9 { (v[7], v[8]) } else { (0, 0) };
+    Some(M { tok: v[0], long: v[1], short: v[2], bal_l: v[3], bal_s: v[4], min_l: v[5], min_s: v[6], col_l, col_s })
 }
 fn parse_list(s: &str) -> Option<Vec<u64>> { if s == "-" { Some(vec![]) } else { s.split(',').map(|x| x.parse().ok()).collect() } }
 fn tokpk(t: u64) -> Pubkey { pk(1000 + t) }
@@ -37,6 +39,7 @@ fn build(cur: &M, markets: &[M]) -> Option<Built> {
         let liq = if pure { ((m.min_l + m.min_s) as u128, 0u128) } else { (m.min_l as u128, m.min_s as u128) };
         let bal = if pure { (m.bal_l, 0) } else { (m.bal_l, m.bal_s) };
         hook::seed_market(&loader, ev, liq, (0, 0), bal).ok()?;
+        if m.col_l != 0 || m.col_s != 0 { hook::seed_fee_and_collateral(&loader, ev, (0, 0), (m.col_l as u128, m.col_s as u128), (0, 0)).ok()?; }
         Some(loader)
     };
     let loaders: Vec<_> = markets.iter().map(|m| mk(m)).collect::<Option<_>>()?;
@@ -122,6 +125,25 @@ fn exec(req: &str) -> Option<(String, String, Vec<(u64, bool, u128, u128)>)> {
                 t
             };
             if totals(&before) != totals(&after) { return Some((canon, "ok-but-unbalanced".into(), hops)); }
+            // C22 oracle (independent of the model): swapping OUT of the current market leaves each output amount
+            // deposited in its output market, to be paid out by the enclosing instruction — every market must still
+            // pass the real balance validation with ALL amounts that are about to leave it excluded
+            if !into {
+                let out_market = |p: &Vec<u64>| -> u64 { *p.last().unwrap_or(&cur.tok) };
+                let mut excl: std::collections::BTreeMap<u64, (u64, u64)> = std::collections::BTreeMap::new();
+                for (mt, tok, amt) in [(out_market(&primary), exp_l, o1), (out_market(&secondary), exp_s, o2)] {
+                    if amt == 0 { continue; }
+                    let m = all.iter().find(|m| m.tok == mt).unwrap();
+                    let e = excl.entry(mt).or_insert((0, 0));
+                    if tok == m.long { e.0 = e.0.saturating_add(amt); } else { e.1 = e.1.saturating_add(amt); }
+                }
+                for (mt, e) in excl {
+                    let loader = if mt == cur.tok { b.current } else { &b.loaders[markets.iter().position(|m| m.tok == mt).unwrap()] };
+                    if hook::validate_balances(loader, b.ev, e).is_err() {
+                        return Some((canon, format!("ok-but-insolvent {mt} {} {}", e.0, e.1), hops));
+                    }
+                }
+            }
             format!("ok {o1} {o2} | {trace} | {}:{} | {mb}", cb.0, cb.1)
         }
         Err(_) => { if before != after { "err-but-changed".into() } else { "err".into() } }
@@ -129,7 +151,51 @@ fn exec(req: &str) -> Option<(String, String, Vec<(u64, bool, u128, u128)>)> {
     Some((canon, resp, hops))
 }
 
+fn fmt_m(m: &M) -> String {
+    if m.col_l == 0 && m.col_s == 0 { format!("{}:{}:{}:{}:{}:{}:{}", m.tok, m.long, m.short, m.bal_l, m.bal_s, m.min_l, m.min_s) }
+    else { format!("{}:{}:{}:{}:{}:{}:{}:{}:{}", m.tok, m.long, m.short, m.bal_l, m.bal_s, m.min_l, m.min_s, m.col_l, m.col_s) }
+}
+
+/// Both sides of a swap OUT of the current market end in the same provided market and the same token; that
+/// market's position collateral is placed around the point where excluding the two outputs jointly / one at a
+/// time makes a difference (the outputs are learnt from a dry run: they do not depend on recorded balances).
+fn gen_same_output(r: &mut Rng) -> String {
+    let surplus = 10_000_000_000_000u64;
+    let liq = |r: &mut Rng| r.range(1, 9) * 100_000_000_000;
+    // tokens: a = 0, b = 1, out = 2; current market 0 = (a, b); X = market 1 over (a, out) in either order; Y = market 2 over (b, a)
+    let (la, lb) = (liq(r), liq(r));
+    let cur = M { tok: 0, long: 0, short: 1, bal_l: la + surplus, bal_s: lb + surplus, min_l: la, min_s: lb, col_l: 0, col_s: 0 };
+    let x_out_long = r.chance(1, 2);
+    let (xl, xs) = (liq(r), liq(r));
+    let mut x = M { tok: 1, long: if x_out_long { 2 } else { 0 }, short: if x_out_long { 0 } else { 2 }, bal_l: xl + surplus, bal_s: xs + surplus, min_l: xl, min_s: xs, col_l: 0, col_s: 0 };
+    let (yl, ys) = (liq(r), liq(r));
+    let y = M { tok: 2, long: 1, short: 0, bal_l: yl + surplus, bal_s: ys + surplus, min_l: yl, min_s: ys, col_l: 0, col_s: 0 };
+    // primary: a -> out through X; secondary: b -> a (through the current market or through Y) -> out through X
+    let via_cur = r.chance(1, 2);
+    let (p1, p2) = ("1".to_string(), if via_cur { "0,1".to_string() } else { "2,1".to_string() });
+    let amt = |r: &mut Rng| -> u64 { match r.below(3) { 0 => r.range(1, 5) * 20_000_000_000, _ => r.range(1_000, 1_000_000_000) } };
+    let (a1, a2) = (amt(r), amt(r));
+    let mk = |x: &M| format!("rt swap 0 {} {},{} {p1} {p2} 0 1 {a1} {a2} 2 2 -", fmt_m(&cur), fmt_m(x), fmt_m(&y));
+    let dry = mk(&x);
+    let Some((_, resp, _)) = exec(&dry) else { return dry };
+    let f: Vec<&str> = resp.split(' ').collect();
+    if f.len() < 3 || f[0] != "ok" { return dry; }
+    let (o1, o2): (u64, u64) = (f[1].parse().unwrap_or(0), f[2].parse().unwrap_or(0));
+    let bal = if x_out_long { x.bal_l } else { x.bal_s };   // the output token's balance in X is not moved by the swap
+    let (lo, hi) = (o1.min(o2), o1.max(o2));
+    let col = match r.below(6) {
+        0 => bal.saturating_sub(o1 + o2),                                   // exactly covered
+        1 => bal.saturating_sub(o1 + o2) + 1,                               // one unit short jointly
+        2 | 3 => bal.saturating_sub(hi + r.below(lo.max(1))),               // each alone passes, together they do not
+        4 => bal.saturating_sub(hi) + 1,                                    // the larger one alone already fails
+        _ => bal.saturating_sub(o1 + o2).saturating_sub(r.below(1000)),     // comfortably covered
+    };
+    if x_out_long { x.col_l = col } else { x.col_s = col }
+    mk(&x)
+}
+
 fn gen_req(r: &mut Rng) -> String {
+    if r.chance(1, 8) { return gen_same_output(r); }
     // tokens 0..5, markets 1..6 over random token pairs; the current market is market 0
     let ntok = r.range(2, 5);
     let pair = |r: &mut Rng, allow_pure: bool| -> (u64, u64) { let a = r.below(ntok); let mut b = r.below(ntok); if !allow_pure && a == b { b = (a + 1) % ntok; } if r.chance(1, 12) && allow_pure { (a, a) } else { if a == b { (a, (a + 1) % ntok) } else { (a, b) } } };
@@ -140,7 +206,7 @@ fn gen_req(r: &mut Rng) -> String {
         // only the current market is generated with little or no surplus: the router's own
         // balance check (`From` direction) is modelled; the others are property C22
         let (sl, ss) = if tok == 0 { (slack(r), slack(r)) } else { (10_000_000_000_000, 10_000_000_000_000) };
-        M { tok, long: l, short: s, bal_l: min_l + sl, bal_s: min_s + ss, min_l, min_s }
+        M { tok, long: l, short: s, bal_l: min_l + sl, bal_s: min_s + ss, min_l, min_s, col_l: 0, col_s: 0 }
     };
     let mut cur = mkm(r, 0, false);
     let nm = r.range(0, 5);
@@ -174,7 +240,7 @@ fn gen_req(r: &mut Rng) -> String {
     let exp_l = if r.chance(1, 12) { r.below(ntok) } else { end1 };
     let exp_s = if r.chance(1, 12) { r.below(ntok) } else { end2 };
     let amt = |r: &mut Rng| -> u64 { match r.below(6) { 0 => 0, 1 => 1, 2 => r.range(1, 5) * 200_000_000_000, _ => r.range(1, 1_000_000_000) } };
-    let fm = |m: &M| format!("{}:{}:{}:{}:{}:{}:{}", m.tok, m.long, m.short, m.bal_l, m.bal_s, m.min_l, m.min_s);
+    let fm = |m: &M| fmt_m(m);
     let ms = if markets.is_empty() { "-".into() } else { markets.iter().map(fm).collect::<Vec<_>>().join(",") };
     let fl = |p: &Vec<u64>| if p.is_empty() { "-".to_string() } else { p.iter().map(|x| x.to_string()).collect::<Vec<_>>().join(",") };
     let tl = if r.chance(1, 10) { "_".to_string() } else { start_l.to_string() };
@@ -196,6 +262,7 @@ fn main() {
         let (canon, resp, hops) = match r { Ok(Some(x)) => x, Ok(None) => (req.clone(), "bad-op".to_string(), vec![]), Err(_) => (req.clone(), "panic".to_string(), vec![]) };
         if resp == "panic" { out.oracle_fail("router panicked", &canon); }
         if resp == "ok-but-unbalanced" { out.oracle_fail("a hop did not move exactly the swapped amount between the recorded balances of the markets involved", &canon); }
+        if resp.starts_with("ok-but-insolvent") { out.oracle_fail(&format!("the router accepted a swap out of the current market after which paying out the outputs leaves a market's recorded balance below its pool amounts or its position collateral (market, excluded long, excluded short = {})", &resp[17..]), &canon); }
         if resp == "err-but-changed" { out.oracle_fail("a failed swap changed stored recorded balances", &canon); }
         // ---- property oracle (independent of the Lean model)
         let t: Vec<&str> = canon.split(' ').collect();
